@@ -56,7 +56,7 @@ func TestC17(t *testing.T) {
 		"SO_RCVBUF/SO_SNDBUF read back. Non-trivial: receive size != send size.")
 	defer rec.Flush(t)
 	rec.Assume("stage 2 uses sizes below net.core.rmem_max/wmem_max (the kernel doubles the requested value)", "stage 2 is skipped (and counted as skipped) if loopback sockets cannot be opened")
-	rec.Require("sizes_differ", "socket_internal", "socket_external", "sibling_links", "realsocket_checked")
+	rec.Require("sizes_differ", "socket_internal", "socket_external", "sibling_links", "realsocket_checked", "only_send_configured", "only_receive_configured", "connected_socket")
 	rapid.Check(t, func(rt *rapid.T) {
 		recv := rapid.SampledFrom([]int{0, 1, 4096, 65536, 212992, 1 << 20, 1 << 24}).Draw(rt, "recv")
 		send := rapid.SampledFrom([]int{0, 2, 8192, 131072, 212992, 1 << 21, 1 << 25}).Draw(rt, "send")
@@ -126,8 +126,23 @@ func TestC17(t *testing.T) {
 		labels = append(labels, "socket_internal", "socket_external")
 
 		// ---- stage 2: real sockets
+		// (a size of 0 means "not configured": the other one must still be applied; connected sockets
+		// are what external and sibling links use, unconnected ones the internal link)
 		r2, s2 := rapid.IntRange(2304, 100000).Draw(rt, "realRecv"), rapid.IntRange(4608, 100000).Draw(rt, "realSend")
-		cc, err := conn.New(netip.MustParseAddrPort("127.0.0.1:0"), netip.AddrPort{}, &conn.Config{ReceiveBufferSize: r2, SendBufferSize: s2})
+		switch rapid.IntRange(0, 5).Draw(rt, "onlyOneConfigured") {
+		case 0:
+			r2 = 0
+			labels = append(labels, "only_send_configured")
+		case 1:
+			s2 = 0
+			labels = append(labels, "only_receive_configured")
+		}
+		var remote netip.AddrPort
+		if rapid.Bool().Draw(rt, "connectedSocket") {
+			remote = netip.MustParseAddrPort("127.0.0.1:30041")
+			labels = append(labels, "connected_socket")
+		}
+		cc, err := conn.New(netip.MustParseAddrPort("127.0.0.1:0"), remote, &conn.Config{ReceiveBufferSize: r2, SendBufferSize: s2})
 		if err != nil {
 			labels = append(labels, "realsocket_skipped")
 		} else {
@@ -140,7 +155,7 @@ func TestC17(t *testing.T) {
 				if err1 != nil || err2 != nil {
 					labels = append(labels, "realsocket_skipped")
 				} else {
-					if gr != 2*r2 || gs != 2*s2 {
+					if (r2 != 0 && gr != 2*r2) || (s2 != 0 && gs != 2*s2) {
 						cc.Close()
 						rt.Fatalf("socket opened with ReceiveBufferSize=%d SendBufferSize=%d reports SO_RCVBUF=%d SO_SNDBUF=%d (kernel doubles: expected %d / %d)", r2, s2, gr, gs, 2*r2, 2*s2)
 					}
